@@ -66,8 +66,10 @@ type siteWalker struct {
 	text      string
 	funcNum   string // "%K" for the function being walked
 	firstFree map[string]int
-	nGlobal   int // top-level global entities
-	maxMD     int // largest metadata ID in the text
+	declared  []string     // names of functions that are only declared
+	mdDefined map[int]bool // defined metadata IDs
+	nGlobal   int          // top-level global entities
+	maxMD     int          // largest metadata ID in the text
 	sites     []Site
 	globals   []string // names (without sigil) of named globals/functions
 	locals    []string // names of named locals, parameters, labels
@@ -220,6 +222,7 @@ func (w *siteWalker) walk(n *ast.Node, parent *ast.Node, idxInParent int, sameTy
 			w.maxMD = id
 		}
 		if parent.Type() == ll.MetadataDef && sameTypeIdx == 0 && idxInParent == 0 {
+			w.mdDefined[id] = true
 			break
 		}
 		w.add("use:metadata id ("+parent.Type().String()+")", n)
@@ -229,6 +232,9 @@ func (w *siteWalker) walk(n *ast.Node, parent *ast.Node, idxInParent int, sameTy
 	case ll.TypeDef:
 		if n.Child(selector.OpaqueType) == nil {
 			w.dupEntity("dup:type", n)
+			if name := n.Child(selector.LocalIdent); name != nil {
+				w.sites = append(w.sites, Site{Kind: "dup:type (redefined as opaque after its body)", Off: n.Offset(), End: n.Endoffset(), Text: name.Text(), InsertAt: n.Endoffset(), Insert: "\n" + name.Text() + " = type opaque\n"})
+			}
 		}
 	case ll.ComdatDef:
 		w.dupEntity("dup:comdat", n)
@@ -239,6 +245,13 @@ func (w *siteWalker) walk(n *ast.Node, parent *ast.Node, idxInParent int, sameTy
 		}
 	case ll.FuncDecl, ll.FuncDef:
 		w.nGlobal++
+		if n.Type() == ll.FuncDecl {
+			if hdr := n.Child(selector.FuncHeader); hdr != nil {
+				if name := hdr.Child(selector.GlobalIdent); name != nil {
+					w.declared = append(w.declared, name.Text())
+				}
+			}
+		}
 		if hdr := n.Child(selector.FuncHeader); hdr != nil {
 			if name := hdr.Child(selector.GlobalIdent); name != nil && !isUnnamedIdent(name.Text()) {
 				w.dupEntity("dup:function", n)
@@ -372,7 +385,7 @@ func c05Sites(name, text string) ([]Site, error) {
 	if err != nil {
 		return nil, err
 	}
-	w := &siteWalker{text: text, firstFree: map[string]int{}}
+	w := &siteWalker{text: text, firstFree: map[string]int{}, mdDefined: map[int]bool{}}
 	// The first unused unnamed local ID of every function definition, from the
 	// translation of the valid module (the IDs LLVM and the library agree on).
 	if m, err := asm.ParseString(name, text); err == nil && m != nil {
@@ -439,7 +452,13 @@ func c05Sites(name, text string) ([]Site, error) {
 		case strings.HasPrefix(k, "use:global"), strings.HasSuffix(k, " function"):
 			w.sites[i].Num = fmt.Sprintf("@%d", w.nGlobal+1)
 		case strings.HasPrefix(k, "use:metadata"):
-			w.sites[i].Num = fmt.Sprintf("!%d", w.maxMD+1)
+			// The smallest ID that is not defined: inside a gap of the numbering if
+			// there is one, else one past the largest.
+			gap := 0
+			for w.mdDefined[gap] {
+				gap++
+			}
+			w.sites[i].Num = fmt.Sprintf("!%d", gap)
 		}
 		switch {
 		case strings.HasPrefix(k, "use:local"), strings.HasPrefix(k, "use:label"), strings.HasPrefix(k, "use:phi"), strings.HasPrefix(k, "use:named type"), strings.HasSuffix(k, " block"):
@@ -448,6 +467,10 @@ func c05Sites(name, text string) ([]Site, error) {
 			w.sites[i].Alt = altGlobal
 		case strings.HasPrefix(k, "use:comdat"):
 			w.sites[i].Alt = altComdat
+		}
+		if k == "use:blockaddress function" && len(w.declared) > 0 && w.declared[0] != w.sites[i].Text {
+			// A function that exists but is only declared has no block at all.
+			w.sites[i].Alt = w.declared[0]
 		}
 	}
 	return w.sites, nil
